@@ -122,7 +122,10 @@ def shard(desc):
         flat = interleave(xs, second)
         for typ in types:
             # (A) one at a time, observed at every checkpoint
-            c, marks = sc.prefix_case(newid(), typ, xs, meta=meta, weights=second)
+            c, marks = sc.prefix_case(newid(), typ, xs, meta=meta, weights=second, noise=(rng if rng.random() < 0.15 else None),
+                                      serde_ok=common.has_serde(desc['variant']))
+            if c.meta.get('noise'):
+                res.count('cases_with_invisible_ops')
             cases.append(c)
             plan.append(('prefix', c, marks, oracle, typ, False))
             # (B) collect / extend in one go
